@@ -1,4 +1,5 @@
 import Mochi.Model.Broker
+import Mochi.Lemmas.AckRes
 /-!
 # C07 — Every request that requires a response gets one
 
@@ -25,12 +26,14 @@ theorem writeMsg_ack (s : Server) (i : Nat) (t id rc : Nat) (ht : t ≠ 3) (hw :
   have : (t == 3) = false := by simpa using ht
   simp [h1, h2, h3, this]
 
+theorem Writable.live {c : Client} (hw : Writable c) : dead c = false := dead_of_live hw.1 hw.2.2
+
 /-- PUBREL for an unknown identifier is answered with PUBCOMP (reason 0x92) -/
 theorem C07_pubrel_unknown (s : Server) (i id rc : Nat) (hw : Writable (getObj s i))
     (hk : flGet (getObj s i) id = none) :
     (processPubrel s i id rc).2.1 = [.wrote (getObj s i).conn (.ack (getObj s i).ver 7 id 0x92)] := by
   unfold processPubrel
-  simp only [hk, Option.isNone_none, if_true, writeAck]
+  simp only [hk, Option.isNone_none, if_true, ackRes_live s i 7 id 0x92 hw.live, writeAck]
   exact writeMsg_ack s i 7 id 0x92 (by decide) hw
 
 /-- PUBREC for an unknown identifier is answered with PUBREL (reason 0x92) -/
@@ -38,14 +41,15 @@ theorem C07_pubrec_unknown (s : Server) (i id rc : Nat) (hw : Writable (getObj s
     (hk : flGet (getObj s i) id = none) :
     (processPubrec s i id rc).2.1 = [.wrote (getObj s i).conn (.ack (getObj s i).ver 6 id 0x92)] := by
   unfold processPubrec
-  simp only [hk, Option.isNone_none, if_true, writeAck]
+  simp only [hk, Option.isNone_none, if_true, ackRes_live s i 6 id 0x92 hw.live, writeAck]
   exact writeMsg_ack s i 6 id 0x92 (by decide) hw
 
 /-- PINGREQ is answered with PINGRESP -/
-theorem C07_pingreq (s : Server) (i : Nat) (hopen : (getObj s i).isOpen = true) :
+theorem C07_pingreq (s : Server) (i : Nat) (hopen : (getObj s i).isOpen = true)
+    (hpg : (getObj s i).peerGone = false) :
     ∃ rest, (receivePacket s i .pingreq).2.1 = .wrote (getObj s i).conn .pingresp :: rest := by
   unfold receivePacket
-  simp only [hopen, if_true]
+  simp only [dead_of_live hopen hpg, Bool.not_false, if_true]
   exact ⟨_, rfl⟩
 
 /-- a QoS 1/2 PUBLISH to a refused topic name is answered with PUBACK / PUBREC carrying reason 0x90
@@ -57,7 +61,7 @@ theorem C07_publish_invalid_topic_v5 (s : Server) (i q id : Nat) (d r : Bool) (t
   unfold processPublish
   have hq' : (q == 0) = false := by simpa using hq
   simp only [hw.2.1, hbad, Bool.not_false, Bool.true_and, if_true, hq', Bool.false_eq_true, if_false, hv, bne_self_eq_false,
-    writeAck]
+    ackRes_live s i _ id 0x90 hw.live, writeAck]
   by_cases h2 : q = 2
   · subst h2
     have := writeMsg_ack s i 5 id 0x90 (by decide) hw
